@@ -1,6 +1,7 @@
 """C02 — outbound packets are spec-conformant and carry what the user supplied: configuration of ./check C02."""
 
-PROP = {'areas': [{'area': 'c02', 'corpus': ['corpus/C02/d3_subscribe_subid.txt', 'corpus/C02/boundaries.txt', 'corpus/C02/trailing_empty.txt'], 'quick': 20000, 'thorough': 1000000}],
+PROP = {'areas': [{'area': 'c02', 'corpus': ['corpus/C02/d3_subscribe_subid.txt', 'corpus/C02/boundaries.txt', 'corpus/C02/trailing_empty.txt'], 'quick': 20000, 'thorough': 1000000},
+           {'area': 'engine', 'quick': 3000, 'thorough': 300000, 'extra': ['100'], 'corpus': ['corpus/engine/d25_connect311_empty_client_id.script'], 'only_prop': 'C02', 'tie_fields': ['out']}],
  'coq_target': 'Properties/C02.vo',
  'modelled': 'encode.rs Encoder::reset / Encoder::encode / process_encoding_step / encode_vli / compute_variable_length_integer_encode_size and all '
              'length / step macros; mqtt/{connect,publish,puback,pubrec,pubrel,pubcomp,subscribe,unsubscribe,pingreq,disconnect,auth}.rs '
